@@ -19,7 +19,7 @@ import time
 
 from ..core import Ctx
 
-REPO = "/repo"
+REPO = os.path.realpath(os.environ.get("VERIF_REPO", "/repo"))
 ROOT = os.path.dirname(os.path.dirname(os.path.dirname(os.path.abspath(__file__))))
 
 MONITOR_OF = {"C02": "assembly", "C03": "assembly", "C04": "bc", "C05": "timestep", "C08": "location", "C09": "loads", "C16": "results", "C11": "law", "C12": "fearray", "C14": "perturb,stale", "C15": "history",
